@@ -182,6 +182,13 @@ class Impl:
                         rec["calls"].append(("_root_namespace", _fn, {}))
                         return _orig(*a, **k)
                     setattr(ns_obj, fn, wrapped)
+                for fn in [n for n in ("_lookup_dsdl_files",) if hasattr(runner, n)]:
+                    orig = getattr(runner, fn)
+
+                    def wrapped_self(*a, _fn=fn, _orig=orig, **k):
+                        rec["calls"].append(("self", _fn, dict(k)))
+                        return _orig(*a, **k)
+                    setattr(runner, fn, wrapped_self)
                 try:
                     runner.run()
                 except BaseException as e:  # noqa
@@ -228,7 +235,6 @@ def parse_model(ans):
         k, _, v = item.partition("=")
         ns[k] = v
     r["ns"] = ns
-    r["pps"] = None if r["pps"] == "!" and False else r["pps"]
     return r
 
 
@@ -428,8 +434,7 @@ def compare_plan(ctx, stream, impl, accepted, oracle=None):
         if got_calls != want_calls:
             ctx.disagree(stream + ":calls", {"argv": argv, "mode": m["mode"]}, want_calls, got_calls)
         want_pps = [] if m["pps"] == "!" else m["pps"].split(",")
-        if m["pps"] != "!" or True:
-            if got_pps != want_pps:
-                ctx.disagree(stream + ":post-processors", {"argv": argv}, want_pps, got_pps)
+        if got_pps != want_pps:
+            ctx.disagree(stream + ":post-processors", {"argv": argv}, want_pps, got_pps)
         if oracle is not None:
             oracle(argv, args, p)
